@@ -10,7 +10,8 @@ EXPLANATION = ("Sufficient conditions for exactly-once destruction under every i
                "where the value returned by *that* fetch_sub equals 1, after fence(>=Acquire), once each; (R14.3) constructor pre-load = number "
                "of handles handed out, clone = one increment per handle, the unsafe bulk API has only the listed in-crate users; (R14.4) the "
                "control block's data_id/allocator are immutable and every Deref-like impl resolves through them; (R14.5) unique->shared "
-               "conversion suppresses the unique handle's Drop (ManuallyDrop) and OgreUnique is neither Clone nor Copy.")
+               "conversion suppresses the unique handle's Drop (ManuallyDrop) and OgreUnique is neither Clone nor Copy; (R14.6) the pool's dealloc_id -- the only "
+               "thing the last handle's drop calls -- destroys the payload strictly before the slot re-enters the free list.")
 ASSUMPTIONS = ["the count equals the number of live handles given R14.3 and that unsafe raw_copy/increment_references are used as paired in R03.4",
                "DerefMut on a shared handle (safe mutation of shared data) is outside the statement"]
 
